@@ -37,6 +37,7 @@ type Prog struct {
 	lineMap   map[*token.File][]int
 	normNotes []string
 	stripped  int // logging statements removed before the rules ran
+	merged    int // nested / consecutive if statements brought into one condition
 }
 
 // Load loads ./... of dir. With deps=true the whole dependency closure is loaded from source
@@ -89,6 +90,9 @@ func Load(dir string, deps bool, extraEnv ...string) (*Prog, error) {
 		pk := p.byPath[modPath+"/"+rel]
 		if pk == nil {
 			continue
+		}
+		if !keepLogging {
+			p.merged += canonIfs(p.Fset, pk)
 		}
 		if normaliseCmp {
 			normaliseComparisons(pk)
@@ -621,4 +625,132 @@ func stripLogging(pk *packages.Package) int {
 		})
 	}
 	return n
+}
+
+// canonIfs brings two ways of writing one decision into a single form, so that rules see the same gate either way:
+//
+//	if a { if b { S } }              →  if a && b { S }      (neither if has an else; the inner one has no init and is the
+//	                                                           only statement of the outer body)
+//	if a { S }; if b { S }           →  if a || b { S }      (same S, textually, ending in return/continue/break/goto/panic;
+//	                                                           no init, no else)
+//
+// Both rewrites keep the order in which a and b are evaluated and the set of executions of S. The new condition node
+// gets the type bool in the package's type information; nothing else changes, so no re-check is needed.
+func canonIfs(fset *token.FileSet, pk *packages.Package) int {
+	n := 0
+	mk := func(x ast.Expr, op token.Token, y ast.Expr) ast.Expr {
+		par := func(e ast.Expr) ast.Expr {
+			if b, ok := e.(*ast.BinaryExpr); ok && (b.Op == token.LOR || b.Op == token.LAND) && b.Op != op {
+				p := &ast.ParenExpr{Lparen: e.Pos(), X: e, Rparen: e.End()}
+				pk.TypesInfo.Types[p] = pk.TypesInfo.Types[e]
+				return p
+			}
+			return e
+		}
+		b := &ast.BinaryExpr{X: par(x), OpPos: x.End(), Op: op, Y: par(y)}
+		pk.TypesInfo.Types[b] = types.TypeAndValue{Type: types.Typ[types.Bool]}
+		return b
+	}
+	text := func(b *ast.BlockStmt) string {
+		var sb strings.Builder
+		for _, st := range b.List {
+			sb.WriteString(stmtText(st))
+			sb.WriteString(";")
+		}
+		return sb.String()
+	}
+	var mergeAnd func(is *ast.IfStmt)
+	mergeAnd = func(is *ast.IfStmt) {
+		for is.Else == nil && len(is.Body.List) == 1 {
+			in, ok := is.Body.List[0].(*ast.IfStmt)
+			if !ok || in.Init != nil || in.Else != nil {
+				return
+			}
+			is.Cond = mk(is.Cond, token.LAND, in.Cond)
+			is.Body = in.Body
+			n++
+		}
+	}
+	mergeOr := func(list []ast.Stmt) []ast.Stmt {
+		var out []ast.Stmt
+		for _, st := range list {
+			cur, ok := st.(*ast.IfStmt)
+			if ok && len(out) > 0 && cur.Init == nil && cur.Else == nil {
+				if prev, ok := out[len(out)-1].(*ast.IfStmt); ok && prev.Init == nil && prev.Else == nil &&
+					len(prev.Body.List) > 0 && leaves(prev.Body.List) && text(prev.Body) == text(cur.Body) {
+					prev.Cond = mk(prev.Cond, token.LOR, cur.Cond)
+					n++
+					continue
+				}
+			}
+			out = append(out, st)
+		}
+		return out
+	}
+	for _, f := range pk.Syntax {
+		ast.Inspect(f, func(x ast.Node) bool {
+			switch b := x.(type) {
+			case *ast.IfStmt:
+				mergeAnd(b)
+			case *ast.BlockStmt:
+				b.List = mergeOr(b.List)
+			case *ast.CaseClause:
+				b.Body = mergeOr(b.Body)
+			case *ast.CommClause:
+				b.Body = mergeOr(b.Body)
+			}
+			return true
+		})
+	}
+	return n
+}
+
+// leaves: control does not continue with the next statement after this list.
+func leaves(list []ast.Stmt) bool {
+	if len(list) == 0 {
+		return false
+	}
+	switch s := list[len(list)-1].(type) {
+	case *ast.ReturnStmt:
+		return true
+	case *ast.BranchStmt:
+		return s.Tok != token.FALLTHROUGH
+	case *ast.ExprStmt:
+		if c, ok := s.X.(*ast.CallExpr); ok {
+			if id, ok := c.Fun.(*ast.Ident); ok && id.Name == "panic" {
+				return true
+			}
+		}
+	}
+	return false
+}
+
+func stmtText(n ast.Node) string {
+	var sb strings.Builder
+	ast.Inspect(n, func(x ast.Node) bool {
+		switch y := x.(type) {
+		case *ast.Ident:
+			sb.WriteString(y.Name + " ")
+		case *ast.BasicLit:
+			sb.WriteString(y.Value + " ")
+		case nil:
+			sb.WriteString(") ")
+		default:
+			sb.WriteString(fmt.Sprintf("%T( ", x))
+			switch z := x.(type) {
+			case *ast.BinaryExpr:
+				sb.WriteString(z.Op.String() + " ")
+			case *ast.UnaryExpr:
+				sb.WriteString(z.Op.String() + " ")
+			case *ast.AssignStmt:
+				sb.WriteString(z.Tok.String() + " ")
+			case *ast.BranchStmt:
+				sb.WriteString(z.Tok.String() + " ")
+			case *ast.IncDecStmt:
+				sb.WriteString(z.Tok.String() + " ")
+			}
+		}
+		return true
+	})
+	return sb.String()
 }
